@@ -168,7 +168,7 @@ class StmtMixin:
         elif isinstance(t, ast.Subscript):
             base_id = self.eval(t.value, fr, st)
             idx = self.val(t.slice, fr, st)
-            self.write(base_id, idx, self.res(v, st), st, fr, site)
+            self.write(base_id, idx, self.snapshot(v, st), st, fr, site)
         elif isinstance(t, ast.Starred):
             self.assign(t.value, v, fr, st)
         else:
